@@ -315,5 +315,34 @@ def nack_encoder(F, D, res):
                                 flush += 1
                                 res.compare(solver.entails(delta, flit(gt(Lin.atom(diffs[0]), NACK_WINDOW))), "nack-transition", nxt[0],
                                             "NACK encoder: a new word is started only when the distance from the base exceeds 16", pc=delta)
+                # what a finished word leaves behind: the number that did not fit becomes the base of the next word (it is the
+                # element just taken from the sequence), and no base is left only when the sequence is exhausted
+                n_post = 0
+                for tr, nv in zip(rep.transitions, getattr(rep, "post_values", [])):
+                    if tr[1] != "Some" or not isinstance(nv, StructV):
+                        continue
+                    s2 = tr[4]
+                    its = [x for x in nv.fields.values() if isinstance(x, IterV)]
+                    opts = [x for x in nv.fields.values() if isinstance(x, StructV) and x.adt == "std::option::Option"]
+                    if len(its) != 1 or len(opts) != 1:
+                        res.compare(False, "nack-transition", nxt[0], "NACK encoder state: one sequence iterator and one optional base", detail=repr(nv)[:200])
+                        continue
+                    pos = lin(its[0].pos)
+                    sq = its[0].seq
+                    while isinstance(sq, tuple) and sq[0] != "coll" and len(sq) > 1:
+                        sq = sq[1]
+                    coll = sq[1] if isinstance(sq, tuple) and sq[0] == "coll" else None
+                    n_post += 1
+                    if opts[0].variant == "Some":
+                        x = opts[0].fields.get("0")
+                        good = isinstance(x, IntV) and len(x.l.t) == 1 and x.l.c == 0 and list(x.l.t.values()) == [1] and \
+                            next(iter(x.l.t))[0] == "elem" and solver.entails(s2.pc, flit(eq(Lin.from_key(next(iter(x.l.t))[2]), pos - 1)))
+                        res.compare(bool(good), "nack-transition", nxt[0],
+                                    "NACK encoder: after a word is flushed, the number that did not fit is the base of the next word", detail=repr(opts[0])[:200], pc=s2.pc)
+                    else:
+                        good = coll is not None and solver.entails(s2.pc, flit(eq(pos, coll.count())))
+                        res.compare(bool(good), "nack-transition", nxt[0],
+                                    "NACK encoder: no base is left only when every requested number has been consumed", detail=f"position {pos}", pc=s2.pc)
+                res.floor("NACK encoder post-states checked", n_post, 2)
         res.floor("NACK encoder bit-setting steps found", steps, 1)
         res.floor("NACK encoder flush paths found", flush, 1)
